@@ -39,8 +39,13 @@ TRet ==
   /\ WRet(R.err)
   /\ WAbsInv'
 
+TWStream ==
+  /\ IsEv("wstream")
+  /\ WStreamOk(R.total, R.panic, R.sink_failed, R.reported, R.calls_between_failure_and_report, R.out_of_order, R.received)
+  /\ UNCHANGED wvars
+
 TInit == l = 1 /\ WInit
-TNext == TReset \/ TCall \/ TSink \/ TRet
+TNext == TReset \/ TCall \/ TSink \/ TRet \/ TWStream
 TSpec == TInit /\ [][TNext]_tvars
 
 Accepted ==
